@@ -29,7 +29,7 @@ from .core import Ctx, MachineryError
 from .store_replay import pmap
 
 C_TC2 = 40000.0
-DT = {'none': 0.0, 'partial': 10.0, 'clipped': 50.0, 'cold': -10.0}
+DT = {'none': 0.0, 'partial': 10.0, 'clipped': 50.0, 'cold': -10.0, 'advanced': 0.0}
 
 
 def fr(x):
@@ -74,7 +74,7 @@ def eval_point(case):
             break
     temp = temperature_at_altitude_isa_bada4(alt) + DT[c['der']]
     rho = calculate_air_density(pressure_at_altitude_isa_bada4(alt), temp)
-    params = make_params(c['eng'], S_ref=float(2.0 / rho[0]), **({'c_tcr': float(fr(c['ctcr']))} if 'ctcr' in c else {}))
+    params = make_params(c['eng'], S_ref=float(2.0 / rho[0]), **({'c_tcr': float(fr(c['ctcr']))} if 'ctcr' in c else {}), **({'c_tc4': -5.0} if c['der'] == 'advanced' else {}))
     model = Bada3FuelBurnModel(params)
     W, v = float(fr(c['W'])), np.array([float(fr(c['v']))])
     mass = np.array([W / g0])
@@ -252,7 +252,7 @@ def run_mass(case):
 
 def run(ctx: Ctx):
     ctx.rule = (
-        'point cases = 3 engine types x 2 weights x 2 speeds x 5 climb rates x 3 accelerations x 4 altitudes (below / exactly at / above h_p_des) x 4 temperature '
+        'point cases = 3 engine types x 2 weights x 2 speeds x 5 climb rates x 3 accelerations x 4 altitudes (below / exactly at / above h_p_des) x 5 temperature / C_Tc4 '
         'offsets (no/partial/clipped/negative deration) x cruise flag x 2 cruise thrust fractions (11520, TLC-enumerated with rational results); mass cases = every inverse-range '
         'profile of length 2..4 over {sub-1 m/kg, 0, 1, 2, 4}/1000 kg/m x forward/backward x 2 anchors (6200); sessions = every pair of evaluations (3 altitude classes x 4 temperature offsets x 2 loads x point/profile, 2304) plus random sessions of 6 on one model instance, each call compared with the same call on a new instance; non-trivial = thrust regime other than inside / profile with unequal nodes'
     )
